@@ -4,6 +4,7 @@ import (
 	stdErrors "errors"
 
 	schema "github.com/jsightapi/jsight-schema-core"
+	"github.com/jsightapi/jsight-schema-core/kit"
 	"github.com/jsightapi/jsight-schema-core/notations/jschema"
 	"github.com/jsightapi/jsight-schema-core/notations/regex"
 
@@ -119,7 +120,7 @@ func (core *JApiCore) compileUserTypeWithAllDependencies(name string) error {
 			}
 
 			if err := core.checkUserTypeDuringBuild(n, ut); err != nil {
-				return jschemaToJAPIError(err, dd.GetValue(n))
+				return core.userTypeCheckError(err, n)
 			}
 		}
 
@@ -131,12 +132,25 @@ func (core *JApiCore) compileUserTypeWithAllDependencies(name string) error {
 	// Check user type is correct.
 	// We should do it here 'cause it will simplify further processing.
 	if err := currUT.Check(); err != nil {
-		return jschemaToJAPIError(err, dd.GetValue(name))
+		return core.userTypeCheckError(err, name)
 	}
 
 	core.userTypes.Set(name, currUT)
 
 	return nil
+}
+
+// userTypeCheckError locates the error of a user type check. Checking a type also checks the
+// types it uses, and the schema library reports an error with its position in the schema where it
+// found it: that can be another user type than the one being checked.
+func (core *JApiCore) userTypeCheckError(err error, name string) *jerr.JApiError {
+	var e kit.Error
+	if stdErrors.As(err, &e) {
+		if d, ok := core.rawUserTypes.Get(e.Filename()); ok {
+			return jschemaToJAPIError(err, d)
+		}
+	}
+	return jschemaToJAPIError(err, core.rawUserTypes.GetValue(name))
 }
 
 func (core *JApiCore) checkUserTypeDuringBuild(name string, ut schema.Schema) error {
